@@ -199,7 +199,7 @@ func subsets(m int, rng *rand.Rand) [][]bool {
 // Cases enumerates the crash states of a pair.
 func (r *Recording) Cases(p *Pair, rng *rand.Rand) []CrashCase {
 	var out []CrashCase
-	A, B := r.Steps[p.A].Img, r.Steps[p.B].Img
+	A := r.Steps[p.A].Img
 	mk := func(oldSel, newSel []bool, newMode string) {
 		c := CrashCase{Seq: r.SeqNo, A: p.A, B: p.B, NewMode: newMode, LenMode: "follow"}
 		for i, s := range p.Old {
@@ -251,7 +251,6 @@ func (r *Recording) Cases(p *Pair, rng *rand.Rand) []CrashCase {
 	}
 	mk(full, newFull, "tmp0")
 	mk(full, newFull, "tmp1")
-	_ = B
 	return out
 }
 
